@@ -123,9 +123,21 @@ func (e *ExchangeJSightSchema) processAllOf(uut *StringSet) error {
 	return e.exchangeContent.processAllOf(uut, e.catalogUserTypes)
 }
 
+// exampleMu serialises building of examples: jsight-schema-core builds them in
+// buffers taken from a package-level pool and returns a buffer's content after
+// the buffer has been put back, so a concurrent call can overwrite the result.
+var exampleMu sync.Mutex
+
 func (e *ExchangeJSightSchema) Example() ([]byte, error) {
 	// TODO once
-	return e.JSchema.Example()
+	exampleMu.Lock()
+	defer exampleMu.Unlock()
+
+	b, err := e.JSchema.Example()
+	if err != nil {
+		return nil, err
+	}
+	return append([]byte(nil), b...), nil
 }
 
 func (e *ExchangeJSightSchema) MarshalJSON() ([]byte, error) {
